@@ -15,7 +15,7 @@ Record opt_env := {
   ov_cluster : list host;                   (* hosts app.cluster.Get knows *)
   ov_low : Z; ov_high : Z }.                (* marks, seconds *)
 
-Inductive opt_class := OcMalf | OcOptimized | OcOptimizing | OcDisabled | OcPanic.
+Inductive opt_class := OcMalf | OcOptimized | OcOptimizing | OcDisabled.
 
 Definition rs_eqb (a b : Z * Z) : bool := (fst a =? fst b) && (snd a =? snd b).
 
@@ -30,14 +30,16 @@ Definition classify (env : opt_env) (mrs : Z * Z) (enabled : bool) (ons : option
     | None => OcMalf
     | Some lag =>
       if ns_is_master ns then OcMalf else
-      let near := lag <? ov_high env in
-      let conv := lag <? ov_low env in
-      if (near && negb enabled) || (conv && enabled) then OcOptimized
-      else if enabled then OcOptimizing
-      else match ns_repl_settings ns with
-           | None => OcPanic
-           | Some rs => if rs_eqb rs mrs then OcDisabled else OcOptimizing
-           end
+      (* a record without replication settings (written by an older version) tells nothing: malfunctioning *)
+      match ns_repl_settings ns with
+      | None => OcMalf
+      | Some rs =>
+          let near := lag <? ov_high env in
+          let conv := lag <? ov_low env in
+          if (near && negb enabled) || (conv && enabled) then OcOptimized
+          else if enabled then OcOptimizing
+          else if rs_eqb rs mrs then OcDisabled else OcOptimizing
+      end
     end
   end.
 
@@ -59,7 +61,7 @@ Definition opt_get_state (s : site) (h : host) : prog (option (option bool) * oe
     | RErr e => Ret (None, Some e)
     | _ => Ret (None, Some EOther) end).
 
-Inductive read_res := RdOk (p : opt_plan) | RdErr (e : err) | RdPanic.
+Inductive read_res := RdOk (p : opt_plan) | RdErr (e : err).
 
 Fixpoint read_states (env : opt_env) (mrs : Z * Z) (hosts : list host) (p : opt_plan) : prog read_res :=
   match hosts with
@@ -69,10 +71,7 @@ Fixpoint read_states (env : opt_env) (mrs : Z * Z) (hosts : list host) (p : opt_
       match r with
       | (_, Some e) => Ret (RdErr e)
       | (Some (Some en), None) =>
-          match classify env mrs en (assoc h (ov_states env)) with
-          | OcPanic => Panic 30065
-          | c => read_states env mrs rest (plan_add p h c)
-          end
+          read_states env mrs rest (plan_add p h (classify env mrs en (assoc h (ov_states env))))
       | (_, None) => read_states env mrs rest p
       end
   end.
@@ -147,7 +146,6 @@ Definition sync_with (env : opt_env) (mrs : Z * Z) : prog oerr :=
       match r with
       | RdOk p => sync_act env mrs p
       | RdErr e => Ret (Some e)
-      | RdPanic => Panic 30065
       end
   end.
 
